@@ -52,6 +52,10 @@ func runC12(c *Ctx) {
 			r := root.Fork(uint64(i))
 			sw = GenScopeWS(r, ScopeCfg{NFiles: r.Range(1, 3), Depth: r.Range(2, 3), Stats: r.Range(2, 5), JoinPct: -1, GluePct: -1})
 		}
+		if !sw.Loose && len(sw.Files) >= 2 && root.Fork(uint64(i)).Fork(0x726f6f74).Chance(1, 8) {
+			sw.Reroot([]string{"rootA", "rootB"}) // the files are spread over two workspace folders next to each other
+			c.Count("multi_root_workspaces", 1)
+		}
 		c.Eval(1)
 		checkC12WS(c, sw, tag)
 		if i == len(tdirs) {
